@@ -1213,3 +1213,52 @@ Proof.
     cbn [length Nat.eqb Nat.sub repeat app]. rewrite Ex. reflexivity.
   - destruct R as [A B C D E F G H]. repeat split; assumption.
 Qed.
+
+(* the same against CapDefs.ex_region itself (the text of C05_region_reads_safe): the model returns a value, so the model
+   read no byte behind the terminator; the translated C text returns Ok, so neither did it *)
+Theorem tr_ex_region_safe m bs bb be bl s xrow len gbufs lblk vb0 e0 search d fuel :
+  str_at m bs s -> nonul s -> cell_at m G_xrow xrow ->
+  nth_error m bb = Some [vb0] -> nth_error m be = Some [VInt e0] ->
+  nth_error m G_bufs = Some gbufs -> nth_error gbufs BUFS_LB = Some (VPtr bl 0) ->
+  nth_error m bl = Some lblk -> nth_error lblk L_ln_n = Some (VInt len) -> marks_ints lblk ->
+  nth_error m G_lit_25_1 = Some gb_lit_25_1 -> rdist bs bb be bl ->
+  int_ok xrow -> int_ok len -> int_ok e0 -> 2 * Z.of_nat (S (length s)) <= 2147483647 ->
+  nosearch s -> (2 * S (length s) <= fuel)%nat ->
+  exists reg xr, CapDefs.ex_region len (CapDefs.ex_lineno len (mark_of lblk) search) s xrow = CapDefs.Ok (reg, xr) /\
+    (region_fit len (mark_of lblk) search s xrow ->
+     exists m', callf cprog fuel (S (S (S (S d)))) F_ex_region [VPtr bs 0; VPtr bb 0; VPtr be 0] m
+                = Ok (VInt (match reg with CapDefs.RFail => 1 | CapDefs.ROk _ _ => 0 end), m') /\
+       match reg with
+       | CapDefs.ROk b e => nth_error m' bb = Some [VInt b] /\ nth_error m' be = Some [VInt e]
+       | CapDefs.RFail => True
+       end /\ cell_at m' G_xrow xr).
+Proof.
+  intros Hs Hnn Hx Hbeg Hend Hb Hbl Hl Hln Hm Hlit Hdist Hxr Hlen He0 Hbig Hno Hf.
+  destruct (tr_ex_region m bs bb be bl s xrow len gbufs lblk vb0 e0 search d fuel Hs Hnn Hx Hbeg Hend Hb Hbl Hl Hln Hm Hlit Hdist Hxr Hlen He0 Hbig Hno Hf)
+    as ([[[bad b] e] xr] & Er & H).
+  exists (if bad then CapDefs.RFail else CapDefs.ROk b e), xr. split.
+  - rewrite region_proj, Er. reflexivity.
+  - intro Hfit. destruct (H Hfit) as (m' & E & B & En & X & _). cbn [fst snd] in *. exists m'.
+    destruct bad; cbn [b2z] in E; (split; [exact E|]); (split; [|exact X]); [exact I|split; assumption].
+Qed.
+
+(* ------------------------------------------------------------------ a memory to RUN the translated functions on *)
+(* the program's globals with xrow set and bufs[0].lb pointing to a struct lbuf of `lines` lines without marks, then the
+   address string, then beg (indeterminate) and end in blocks of their own *)
+Definition lbuf_blk (lines : Z) : block :=
+  repeat (VInt (-1)) 32 ++ repeat (VInt 0) 32 ++ [VInt 0; VInt 0; VInt lines] ++ repeat (VInt 0) 8.
+Definition ex_mem (lines xrow : Z) (addr : list Z) : mem :=
+  upd (upd cglobals G_xrow [VInt xrow]) G_bufs (upd gb_bufs BUFS_LB (VPtr (length cglobals) 0))
+  ++ [lbuf_blk lines; cstr_block addr; [VUndef]; [VInt 0]].
+(* ex_region(addr, &beg, &end): (value returned, *beg, *end, xrow) *)
+Definition run_region (lines xrow : Z) (addr : list Z) : res (Z * Z * Z * Z) :=
+  let bl := length cglobals in
+  match callf cprog 100 10 F_ex_region [VPtr (S bl) 0; VPtr (S (S bl)) 0; VPtr (S (S (S bl))) 0] (ex_mem lines xrow addr) with
+  | Ok (VInt r, m') =>
+      match nth_error m' (S (S bl)), nth_error m' (S (S (S bl))), nth_error m' G_xrow with
+      | Some [VInt b], Some [VInt e], Some [VInt x] => Ok (r, b, e, x)
+      | _, _, _ => Err EShape
+      end
+  | Ok _ => Err EShape
+  | Err x => Err x
+  end.
